@@ -105,7 +105,9 @@ GEN_STATUS_OPS = [({'op': 'client_gen_status', 'endpoint': 'g3', 'status': 204},
                   ({'op': 'client_gen_status', 'endpoint': 'g3', 'status': 200, 'content_type': 'application/json', 'body': b'"x'.hex()}, False),
                   ({'op': 'client_gen_status', 'endpoint': 'g1', 'status': 204}, None), ({'op': 'client_gen_status', 'endpoint': 'g4', 'status': 204}, None),
                   ({'op': 'client_gen_status', 'endpoint': 'g4', 'status': 200, 'content_type': 'application/json', 'body': b'"y"'.hex()}, '79'),
-                  ({'op': 'client_gen_status', 'endpoint': 'g4', 'status': 200, 'content_type': 'text/plain', 'body': b'"y"'.hex()}, False)]
+                  ({'op': 'client_gen_status', 'endpoint': 'g4', 'status': 200, 'content_type': 'text/plain', 'body': b'"y"'.hex()}, False),
+                  # g7 returns an ALIAS of list<integer>: an empty list travels as 204
+                  ({'op': 'client_gen_status', 'endpoint': 'g7', 'status': 204}, []), ({'op': 'client_gen_status', 'endpoint': 'g7', 'status': 200, 'content_type': 'application/json', 'body': b'[5]'.hex()}, [5])]
 
 
 def battery_gen():
@@ -127,10 +129,16 @@ def run_generated_discipline(rep):
     prog = ep.harness_program('gen-crates/service', c04.GCRATE, ['conjure_serde'])
     ir = _json.load(open(_os.path.join(VERIF, 'gen-crates/service/ir/service.json')))
 
+    aliases = {td['alias']['typeName']['name']: td['alias']['alias'] for td in ir.get('types', []) if td.get('type') == 'alias'}
+
     def cls(t):
         if t is None:
             return 'decode_empty_response'
         k = t['type']
+        if k == 'reference' and t['reference']['name'] in aliases:
+            return cls(aliases[t['reference']['name']])          # the class of an alias is the class of what it stands for
+        if k == 'external':
+            return cls(t['external']['fallback'])
         if k == 'optional' and t['optional']['itemType'].get('primitive') == 'BINARY':
             return 'decode_optional_binary_response'
         if k == 'primitive' and t['primitive'] == 'BINARY':
